@@ -34,13 +34,15 @@ def fn_text(f, name, vis=""):
     need_name = f["ret"] == "borrow-deps"
     amp = {"ref": "&", "reflife": "&'a ", "value": ""}[d["pass"]]
     params = []
+    if "array" in f["params"] and f.get("cfirst"):
+        gens.append("const N: usize")
     if d["kind"] == "generic":
         gens.append("D: crate::HasName + Sync" if need_name else "D: Sync")
         params.append(f"deps: {amp}D")
     elif d["kind"] == "implTrait":
         params.append(f"deps: {amp}" + ("(impl crate::HasName + Sync)" if amp else "impl crate::HasName + Sync"))
     elif d["kind"] == "concrete":
-        params.append(f"deps: {amp}crate::Conc")
+        params.append(f"deps: {amp}" + ("Conc" if f.get("cform") == "ident" else "crate::Conc"))
     for j, t in enumerate(f["params"], start=1):
         if t == "generic":
             g = f"{f['gname']}{j}"
@@ -55,7 +57,7 @@ def fn_text(f, name, vis=""):
             params.append(f"p{j}: &'b str")
         else:
             params.append(f"p{j}: {TY[t]}")
-    if "array" in f["params"]:
+    if "array" in f["params"] and not f.get("cfirst"):
         gens.append("const N: usize")
     ret = {"unit": "", "owned": " -> String", "borrow-deps": " -> &'a str", "borrow-arg": " -> &'a str", "borrow-arg-elided": " -> &str", "generic": f" -> {f['gname']}1"}[f["ret"]]
     body = {"unit": "", "owned": "String::new()", "borrow-deps": "deps.name()", "borrow-arg": "p1", "borrow-arg-elided": "p1", "generic": "p1"}[f["ret"]]
@@ -139,7 +141,7 @@ def render(c):
     recv_ty = "crate::Conc" if conc else "::entrait::Impl<crate::App>"
     recv_mk = 'crate::Conc { name: "c" }' if conc else "::entrait::Impl::new(crate::App)"
     nd = ", no_deps" if f["deps"]["kind"] == "nodeps" else ""
-    out = ["#[allow(unused_imports)] use crate::HasName as _;\n"]
+    out = ["#[allow(unused_imports)] use crate::HasName as _;\n#[allow(unused_imports)] use crate::Conc;\n"]
     if mode == "fn":
         out.append(f"#[::entrait::entrait(pub T{nd})]\n{fn_text(f, 'f')}\n")
         out.append(witness(f, "f", f"<{recv_ty} as T{targs}>::f", recv_ty, recv_mk, 1))
